@@ -712,8 +712,17 @@ def map_item(I, st, item, f):
         v, st = f(st, item[2])
         return ('bulk', item[1], v), st
     if item[0] == 'cond':
-        y, st = map_item(I, st, item[2], f)
-        return ('cond', item[1], y), st
+        # the mapped function runs only for items that passed the gate: it is evaluated under the gate as path condition
+        # (`.filter(|b| *b != 0 ..).map(|b| square_of(b))` knows b != 0 inside the map), panics met there are conditional too
+        saved = st.pc
+        st.pc = saved + (item[1],) if item[1] is not C1 else saved
+        try:
+            y, st2 = map_item(I, st, item[2], f)
+        finally:
+            st.pc = saved
+        if st2 is not st and st2 is not None:
+            st2.pc = saved
+        return ('cond', item[1], y), st2
     raise from_undecided()('map over %r' % (item,))
 
 
@@ -2527,3 +2536,106 @@ for _k in ('std::array::iter::<impl std::iter::IntoIterator for [T; N]>::into_it
     TABLE[_k] = vec_into_iter
 TABLE['<std::array::IntoIter<T, N> as std::iter::Iterator>::next'] = TABLE['<std::vec::IntoIter<T, A> as std::iter::Iterator>::next']
 TABLE['<core::array::IntoIter<T, N> as std::iter::Iterator>::next'] = TABLE['<std::vec::IntoIter<T, A> as std::iter::Iterator>::next']
+
+
+@summary('std::vec::Vec::<T, A>::clear')
+def vec_clear(I, st, fr, t, a):
+    r = a[0]
+    v = I.read_at(st, r.cell, r.path)
+    if not isinstance(v, Seq):
+        raise from_undecided()('clear on %r' % (v,))
+    st.store[r.cell] = I.update(st.store[r.cell], r.path, Seq(()))
+    return UNIT, st
+
+
+@summary('std::vec::Vec::<T, A>::truncate')
+def vec_truncate(I, st, fr, t, a):
+    r = a[0]
+    v = I.read_at(st, r.cell, r.path)
+    n = a[1]
+    if isinstance(v, Seq) and v.concrete() and isinstance(n, BV) and n.known():
+        st.store[r.cell] = I.update(st.store[r.cell], r.path, Seq(v.items[:n.uval()]))
+        return UNIT, st
+    if isinstance(v, Seq) and isinstance(n, BV) and n.known() and n.uval() == 0:
+        st.store[r.cell] = I.update(st.store[r.cell], r.path, Seq(()))
+        return UNIT, st
+    raise from_undecided()('truncate on %r' % (v,))
+
+
+@summary('core::slice::<impl [T]>::windows')
+def slice_windows(I, st, fr, t, a):
+    v = I.deref(st, a[0]) if isinstance(a[0], Ref) else a[0]
+    n = a[1]
+    if isinstance(v, Seq) and all(x[0] == 'elem' for x in v.items) and isinstance(n, BV) and n.known() and n.uval() > 0:
+        k = n.uval()
+        items = []
+        for i in range(0, len(v.items) - k + 1):
+            cell = ('static', 'window:%d' % next(I.frame_counter))
+            st.store[cell] = Seq([('elem', I.deref(st, x[1]) if isinstance(x[1], Ref) else x[1]) for x in v.items[i:i + k]])
+            items.append(('elem', Ref(cell)))
+        cell = ('static', 'windows:%d' % next(I.frame_counter))
+        st.store[cell] = Seq(items)
+        key = (fr.fname, t['at'], (t.get('res') or {}).get('path', ''))       # window size is a non-zero constant: cannot panic
+        I.asserts_ok[key] = I.asserts_ok.get(key, 0) + 1
+        return Struct('$SliceIter', (Ref(cell), 0, 'owned')), st
+    raise from_undecided()('windows of %r' % (v,))
+
+
+# ---- zip / take_while / skip_while over sequences of known items
+@summary('std::iter::Iterator::zip')
+def iter_zip(I, st, fr, t, a):
+    other = a[1]
+    if isinstance(other, Ref) and isinstance(I.deref(st, other), Seq):
+        other = Struct('$SliceIter', (other, 0, None))            # `zip(&slice)`: IntoIterator of a reference
+    return Struct('$Zip', (a[0], other)), st
+
+
+TABLE['std::iter::Iterator::take_while'] = lazy_adapter('$TakeWhile')
+TABLE['std::iter::Iterator::skip_while'] = lazy_adapter('$SkipWhile')
+
+_drain_before_zip = drain
+
+
+def drain5(I, st, it):
+    if isinstance(it, Struct) and it.ty == '$Zip':
+        xs, st = drain5(I, st, it.fields[0])
+        ys, st = drain5(I, st, it.fields[1])
+        if not all(x[0] == 'elem' for x in xs) or not all(y[0] == 'elem' for y in ys):
+            raise from_undecided()('zip over conditional items')
+        return [('elem', Struct('tuple', (x[1], y[1]))) for x, y in zip(xs, ys)], st
+    if isinstance(it, Struct) and it.ty in ('$TakeWhile', '$SkipWhile'):
+        items, st = drain5(I, st, it.fields[0])
+        if not all(x[0] == 'elem' for x in items):
+            raise from_undecided()('take_while over conditional items')
+        out = []
+        taking = it.ty == '$TakeWhile'
+        for k, x in enumerate(items):
+            cell = ('static', 'tw:%d' % next(I.frame_counter))
+            st.store[cell] = x[1]
+            r, st = I.call_closure(st, it.fields[1], [Ref(cell)])
+            if not (isinstance(r, BV) and r.known()):
+                raise from_undecided()('take_while / skip_while with a predicate that is not decided on a known item')
+            if taking:
+                if not r.uval():
+                    break
+                out.append(x)
+            else:
+                if not r.uval():
+                    out = list(items[k:])
+                    break
+        return out, st
+    if isinstance(it, Struct) and it.ty in ('$Map', '$Filter', '$Cloned', '$Enumerate', '$FilterMap', '$Rev', '$Skip', '$Take', '$Chain') \
+            and any(isinstance(f, Struct) and f.ty in ('$Zip', '$TakeWhile', '$SkipWhile') for f in it.fields[:2]):
+        fs = list(it.fields)
+        for k in range(min(2, len(fs))):
+            if isinstance(fs[k], Struct) and fs[k].ty in ('$Zip', '$TakeWhile', '$SkipWhile'):
+                items, st = drain5(I, st, fs[k])
+                cell = ('static', 'drained:%d' % next(I.frame_counter))
+                st.store[cell] = Seq(items)
+                fs[k] = Struct('$SliceIter', (Ref(cell), 0, 'owned'))
+        return _drain_before_zip(I, st, Struct(it.ty, fs))
+    return _drain_before_zip(I, st, it)
+
+
+drain = drain5
+_mod.drain = drain5
